@@ -35,6 +35,7 @@ class Profile:
         self.qq_fail = 0.0           # probability that one of the daemon's own injections (bounces) fails
         self.count = "m"             # call classes counted for NQV_PLAN indices
         self.trace_extra = ""        # further shim classes to log (e.g. "tr" for stat and read)
+        self.keep_log = False        # keep the shim's complete event log in memory after the home is removed
         self.__dict__.update(kw)
 
 
@@ -86,6 +87,7 @@ class History:
         self.oracles = [self.ledger] + [oc(res, self) for oc in oracle_classes]
         self.sim = qsim.Sim(b, controls=controls, spawn_limit=self.spawn, gate_m=p.gate_m,
                             trace=("mo" if p.gate_m else "m") + p.trace_extra, plan=plan, count=p.count, oracles=self.oracles, label=label)
+        self.sim.keep_log = p.keep_log
         if p.gate_m:
             self.sim.gate_progs = "qmail-send,qmail-clean"
         if p.qq_fail:
